@@ -6,6 +6,7 @@ func init() {
 		Technique:   "enum/table chain extraction over SSA feasible paths (token table, token->operator switches, validate truth tables), error-propagation rules in the parser",
 		Explanation: "Decides the table-shaped part of parsing for all inputs: every spelling maps to the token that names it, every token->operator/stage/production switch maps as the grammar says, IsFunction is the function-name set, the static rules (validate) accept exactly the documented combinations and gate every successful parse, regex/duplicate/unwrap errors reach failure exits, whitespace look-ahead skips all scanner whitespace.",
 		Decided: []string{
+			"CH-SIB: parser.parseDuration / parseBytes evaluate a token with a function lexerql.ScanUnit validates with; PV-ONCE: no successful parse of an aggregation consumes two grouping clauses; PF-PROGRESS: scanner loops leave at EOF",
 			"PV-SIB: both layouts of a log range reach range -> offset? and pipeline -> unwrap? on every successful path",
 			"CH-MAP: lexer.tokens (spelling -> token), TokenType.IsFunction",
 			"CH-MAP: parseLabelMatcher, parseLineFilter, parseLabelPredicate (operators and literal-kind admissibility), peekBinOp, parseRangeAggregationExpr, parseVectorAggregationExpr, parseMetricExpr1 routing, parsePipeline stage selection incl. | unwrap, parseLabelsAndMatchers, parseGrouping",
